@@ -3,6 +3,8 @@
    "before" = the request never reaches the server (kill in the pre-request hook), "after" = the server has
    applied the write and emitted its event, the response never reaches the operator (kill in the
    after-write hook). If no PATCH happens before the next `start`, the operator is killed plainly there.
+ * `[t, "relist", "410"|"http410"]` — the watch streams are re-established and re-list the kind although nothing
+   changed (the version the operator resumes from is too old): every object is delivered again as it is.
  * `"wfaults": [{"t0":..,"t1":..,"fault":"conn-before"|"conn-after","times":n}]` — lost requests/responses
    on the operator's PATCHes of the object inside a time window (never inside the silent tail).
 Run as a subprocess worker: `python -m harness.props.sim_c03 <wall>` (one JSON scenario per stdin line);
@@ -194,6 +196,21 @@ class Sim03(scenario.Sim):
                     if not w.closed and w.res.key == self.kex.key:
                         w.close()
                 self.mark("op", op=["cut", *args])
+            elif kind == "relist":
+                # NOTHING changes, the watch streams of the resource are re-established and begin with a listing: every
+                # object is delivered again AS IT IS (`type=None`, the resource version the operator has already seen).
+                # On a real server: the resource versions are cluster-wide, other kinds' traffic moves them on and the
+                # history is compacted, so the version the operator resumes from is "too old" (410 Gone) although no
+                # object of this kind has changed. `how`: "410" = an ERROR event in the re-established stream,
+                # "http410" = the watch request itself is answered with HTTP 410
+                how = args[0] if args else "410"
+                self.cluster.rv += 1                      # another kind's write
+                self.cluster.compact(self.kex)
+                self.cluster.http_410 = (how == "http410")
+                for w in list(self.cluster.watches):
+                    if not w.closed and w.res.key == self.kex.key:
+                        w.close()
+                self.mark("relist", how=how)
             else:
                 self.apply_op([kind, *args])
         await self.sleep_until(float(sc.get("end", 60.0)))
